@@ -18,6 +18,7 @@ RULE = (
     "states = (period, occupancy, last-invocation distance, k); non-trivial = scenario with >=3 invocations of which one is not caused by an event"
 )
 ASSUMPTIONS = [
+    "periods 5 min throughout, plus a block with 7.5 s, 4.1 min and 8.45 min (not a whole number of seconds / not exact in binary); the clock is compared to the millisecond",
     "true state is read from the harness-held EV objects and the per-period monitor log, not through Interface",
     "the mutating program overwrites every object the public Interface hands out (SessionInfo, InfrastructureInfo, deprecated active_evs copies, get_constraints arrays, returned dicts/lists)",
     "last_applied_pilot_signals is compared from the third period on, for sessions that arrived before the previous period ended (documented behaviour)",
